@@ -11,11 +11,17 @@ import (
 // ---- term constructors with light, sound simplification ----
 
 func isUnsigned(t types.Type) bool {
+	if t == nil {
+		return false
+	}
 	b, ok := t.Underlying().(*types.Basic)
 	return ok && b.Info()&types.IsUnsigned != 0
 }
 
 func intBits(t types.Type, sizes types.Sizes) (bits int, unsigned, ok bool) {
+	if t == nil {
+		return 0, false, false
+	}
 	b, isB := t.Underlying().(*types.Basic)
 	if !isB || b.Info()&types.IsInteger == 0 {
 		return 0, false, false
